@@ -17,23 +17,23 @@ from .unescape import unescape_string
 StateFn: TypeAlias = Callable[[], Optional["StateFn"]]
 
 RE_ASSIGN_OP = re.compile(r"=")  # TODO: scan until ch?
-RE_DROP = re.compile(r"DROP")
+RE_DROP = re.compile(r"DROP(?![_a-zA-Z0-9])")
 RE_GRAMMAR_DOC = re.compile(r"//!")
-RE_IDENTIFIER = re.compile(r"[_a-zA-Z][_a-zA-Z0-9]*")
-RE_INTEGER = re.compile(r"-?[0-9]+")
+RE_IDENTIFIER = re.compile(r"(?!PUSH)[_a-zA-Z][_a-zA-Z0-9]*")
+RE_INTEGER = re.compile(r"[0-9]+|-0*[1-9][0-9]*")
 RE_MODIFIER = re.compile(r"[_@\$!]")
 RE_NEWLINE = re.compile(r"\r?\n")
 RE_NUMBER = re.compile(r"[0-9]+")
-RE_PEEK = re.compile(r"PEEK")
-RE_PEEK_ALL = re.compile(r"PEEK_ALL")
-RE_POP = re.compile(r"POP")
-RE_POP_ALL = re.compile(r"POP_ALL")
+RE_PEEK = re.compile(r"PEEK(?![_a-zA-Z0-9])")
+RE_PEEK_ALL = re.compile(r"PEEK_ALL(?![_a-zA-Z0-9])")
+RE_POP = re.compile(r"POP(?![_a-zA-Z0-9])")
+RE_POP_ALL = re.compile(r"POP_ALL(?![_a-zA-Z0-9])")
 RE_PUSH = re.compile(r"PUSH")
 RE_PUSH_LITERAL = re.compile(r"PUSH_LITERAL")
-RE_RANGE_OP = re.compile(r"..")
+RE_RANGE_OP = re.compile(r"\.\.")
 RE_RULE_DOC = re.compile(r"///")
-RE_TAG = re.compile(r"#[_a-zA-z][_a-zA-Z0-9]+(?=\s*=)")
-RE_WHITESPACE = re.compile(r"[ \t\n\r]+")
+RE_TAG = re.compile(r"#[_a-zA-Z][_a-zA-Z0-9]*")
+RE_WHITESPACE = re.compile(r"(?:[ \t\n]|\r\n)+")
 RE_CHAR = re.compile(
     r"'(?>\\[\\\"'nrt0]|\\x[0-9a-fA-F]{2}|\\u\{[0-9a-fA-F]{2,6}\}|(?s:.))'"
 )
@@ -116,7 +116,12 @@ class Scanner:
                 break
 
     def error(self, message: str) -> Never:
-        token = Token(TokenKind.ERROR, self.grammar[self.pos], self.start, self.grammar)
+        token = Token(
+            TokenKind.ERROR,
+            self.grammar[self.pos : self.pos + 1],
+            self.start,
+            self.grammar,
+        )
         raise PestGrammarSyntaxError(message, token=token)
 
     def scan_grammar(self) -> StateFn | None:
@@ -131,12 +136,13 @@ class Scanner:
     def scan_grammar_doc_inner(self) -> StateFn | None:
         if self.peek() in (" ", "\t"):
             self.next()
+            self.start = self.pos
 
-        if value := self.scan_until(RE_NEWLINE):
-            self.emit(TokenKind.COMMENT_TEXT, value)
-        else:
-            # Empty comment text
-            self.emit(TokenKind.COMMENT_TEXT, "")
+        if self.scan_until(RE_NEWLINE) is None:
+            # The last line of the grammar.
+            self.pos = len(self.grammar)
+
+        self.emit(TokenKind.COMMENT_TEXT, self.grammar[self.start : self.pos])
 
         return self.scan_grammar
 
@@ -187,12 +193,13 @@ class Scanner:
     def scan_rule_doc_inner(self) -> StateFn | None:
         if self.peek() in (" ", "\t"):
             self.next()
+            self.start = self.pos
 
-        if value := self.scan_until(RE_NEWLINE):
-            self.emit(TokenKind.COMMENT_TEXT, value)
-        else:
-            # Empty comment text
-            self.emit(TokenKind.COMMENT_TEXT, "")
+        if self.scan_until(RE_NEWLINE) is None:
+            # The last line of the grammar.
+            self.pos = len(self.grammar)
+
+        self.emit(TokenKind.COMMENT_TEXT, self.grammar[self.start : self.pos])
 
         return self.scan_grammar_rule
 
@@ -220,19 +227,20 @@ class Scanner:
 
     def accept_term(self) -> None:
         if value := self.scan(RE_TAG):
-            # Assumes RE_TAG is using a lookahead assertion for "=".
             self.emit(TokenKind.TAG, value)
             self.skip_trivia()
-            self.emit(TokenKind.ASSIGN_OP, self.next())
+            if self.peek() == "=":
+                self.emit(TokenKind.ASSIGN_OP, self.next())
+            else:
+                self.error("expected the assignment operator")
             self.skip_trivia()
 
-        if self.peek() == "&":
-            self.emit(TokenKind.POSITIVE_PREDICATE, self.next())
-            self.skip_trivia()
-        elif self.peek() == "!":
-            while self.peek() == "!":
+        while self.peek() in ("&", "!"):
+            if self.peek() == "&":
+                self.emit(TokenKind.POSITIVE_PREDICATE, self.next())
+            else:
                 self.emit(TokenKind.NEGATIVE_PREDICATE, self.next())
-                self.skip_trivia()
+            self.skip_trivia()
 
         if self.accept_terminal():
             self.accept_postfix_op()
@@ -313,6 +321,7 @@ class Scanner:
 
         if value := self.scan(RE_PEEK):
             self.emit(TokenKind.PEEK, value)
+            self.skip_trivia()
             if self.peek() == "[":
                 self.emit(TokenKind.LBRACKET, self.next())
             else:
@@ -328,6 +337,8 @@ class Scanner:
                 self.emit(TokenKind.RANGE_OP, value)
             else:
                 self.error("expected a range operator")
+
+            self.skip_trivia()
 
             if value := self.scan(RE_INTEGER):
                 self.emit(TokenKind.INTEGER, value)
@@ -368,6 +379,14 @@ class Scanner:
         return False
 
     def accept_postfix_op(self) -> None:
+        while True:
+            self.skip_trivia()
+            if self.peek() in ("?", "*", "+", "{"):
+                self._accept_postfix_op()
+            else:
+                break
+
+    def _accept_postfix_op(self) -> None:
         ch = self.peek()
 
         if ch == "?":
@@ -432,6 +451,7 @@ class Scanner:
         # Skip '^'.
         self.pos += 1
         self.start = self.pos
+        self.skip_trivia()
 
         if self.peek() != '"':
             self.error("expected a string literal")
